@@ -41,6 +41,7 @@ class Spec:
         return []
 
     has_at_state = False
+    use_snapshots = os.environ.get("VERIF_NO_SNAPSHOT") != "1"
 
     def make_world(self, cfg):
         return self.world_cls(cfg)
@@ -52,6 +53,9 @@ class Spec:
 class NullMonitor:
     def __init__(self):
         self.stats = collections.Counter()
+
+    def clone(self):
+        return NullMonitor()
 
     def step(self, world, ev, obs):
         return []
@@ -101,9 +105,39 @@ def _expand(args):
             finally:
                 world.close()
         if do_expand:
-            for idx, ev in enumerate(alphabet):
-                world, mon, _, _ = build(spec, cfg, hist)
-                try:
+            world = None
+            snap = None
+            base_key = None
+            mon_base = None
+            try:
+                for idx, ev in enumerate(alphabet):
+                    mon = None
+                    if world is not None and snap is not None:
+                        # validated shortcut: restore the containers, then require the canonical key
+                        # of the fresh world; otherwise fall back to replaying the history
+                        world.restore(snap)
+                        if world.key(None) == base_key:
+                            mon = mon_base.clone()
+                            stats["snapshot_restores"] += 1
+                        else:
+                            stats["snapshot_fallbacks"] += 1
+                            world.close()
+                            world = None
+                            snap = None
+                    elif world is not None:
+                        world.close()
+                        world = None
+                    if world is None:
+                        world, mon_fresh, _, _ = build(spec, cfg, hist)
+                        stats["replays"] += 1
+                        if spec.use_snapshots and hasattr(mon_fresh, "clone") and (idx == 0 or snap is not None):
+                            snap = world.snapshot() if idx == 0 else snap
+                        if idx == 0 and snap is not None:
+                            base_key = world.key(None)
+                            mon_base = mon_fresh
+                            mon = mon_base.clone()
+                        else:
+                            mon = mon_fresh
                     mon.stats.clear()
                     obs = world.apply(ev)
                     viols = mon.step(world, ev, obs) or []
@@ -113,7 +147,8 @@ def _expand(args):
                     stats.update(mon.stats)
                     stats["transitions"] += 1
                     row.append((idx, key, viols))
-                finally:
+            finally:
+                if world is not None:
                     world.close()
         out.append((hist, row, at_viols))
     return cfg_idx, out, stats
